@@ -26,7 +26,7 @@ CONF = {
         "obligations": ["ConstC13.v"],
         "n": {"quick": 800, "thorough": 10000},
         "shard": 400,
-        "trusted_base": ["the translator also lists the package-level string constants of /repo (coq/gen/GoConsts.v) on every run; the generated obligation gen/ConstC13.v re-proves that the literals the model and the harness use are the ones the source declares", "text/template + sprig, yaml.v3, encoding/json, magiconair properties, the file system and the process environment are external (Section variables of the model); export/import round trips are tests relative to the bare codec"],
+        "trusted_base": ["the translator also lists the package-level string constants of /repo (coq/gen/GoConsts.v) on every run; the generated obligation gen/ConstC13.v re-proves that the literals the model and the harness use are the ones the source declares", "text/template + sprig, yaml.v3, encoding/json, magiconair properties, the file system and the process environment are external (Section variables of the model); export/import round trips are tests relative to the bare codec", "the YAML PARSER behind template(parseAs yaml) is external: Model/YamlNode.v starts at the parsed node tree (anchors numbered by the harness from the Alias pointers yaml.v3 sets)"],
         "assumptions": ["target paths do not index into an existing non-list node (C03's domain)"],
     },
     "C14": {
@@ -59,7 +59,7 @@ CONF = {
         "obligations": ["ConstC18.v"],
         "n": {"quick": 500, "thorough": 8000},
         "shard": 250,
-        "trusted_base": ["the translator also lists the package-level string constants of /repo (coq/gen/GoConsts.v) on every run; the generated obligation gen/ConstC18.v re-proves that the literals the model and the harness use are the ones the source declares", "yaml.v3 for the AddDocumentFromReader stream"],
+        "trusted_base": ["the translator also lists the package-level string constants of /repo (coq/gen/GoConsts.v) on every run; the generated obligation gen/ConstC18.v re-proves that the literals the model and the harness use are the ones the source declares", "yaml.v3 for the AddDocumentFromReader stream", "the file system, filepath.Glob, k8s.ManifestFromFile and the decoders are external to the batch forms: the model receives the matched files (in glob order), the manifest's items (in the order the new layers reveal) and the decoded documents from the harness"],
         "assumptions": ["documents have path-safe keys; generated values are yaml-round-trippable (no floats) for the FromReader variant"],
     },
     "C06": {
